@@ -19,7 +19,7 @@ from autobahn.wamp.types import CallOptions, CallResult, ComponentConfig, Publis
 
 URI = {"publish": "com.myapp.enc.topic1", "call": "com.myapp.enc.proc1"}
 URI2 = {"publish": "com.myapp.enc.topic2", "call": "com.myapp.enc.proc2"}
-SHAPES = [([], {}), ([1, "two"], {}), ([], {"k": [1, {"n": "ü𝄞"}]}), ([{"a": [1, 2, None]}, 3.5], {"x": True, "y": None})]
+SHAPES = [([], {}), ([7], {}), ([1, "two"], {}), ([], {"k": [1, {"n": "ü𝄞"}]}), ([{"a": [1, 2, None]}, 3.5], {"x": True, "y": None})]
 
 
 class T:
@@ -51,6 +51,14 @@ def rx(sess, msg):
     """what the router sends reaches the session the way it would on a wire: serialised and parsed again"""
     data, _ = _WIRE.serialize(msg)
     sess.onMessage(_WIRE.unserialize(data)[0])
+
+
+class EncDefinedError(Exception):
+    """a class the caller registered for the error URI of the callee"""
+
+    def __init__(self, *args, **kwargs):
+        Exception.__init__(self, *args)
+        self.kwargs = kwargs
 
 
 class Sess(ApplicationSession):
@@ -220,17 +228,30 @@ def one(dir_, layout, fault, shape, pos, rng):
                 else:
                     obs["call"] = "pending"
         else:
+            # variants: pattern-based registration (the router names the called procedure), a plain return value instead of a
+            # CallResult, a class registered at the caller for the callee's error URI
+            pattern = rng.random() < 0.4
+            plain = len(args) == 1 and not kwargs and rng.random() < 0.7
+            defined = dir_ == "error" and rng.random() < 0.5
+            if defined:
+                A.define(EncDefinedError, "com.myapp.enc.error1")
+
             def ep(*a, **kw):
                 got.setdefault("calls", []).append((list(a), dict(kw)))
                 if dir_ == "error":
                     raise ApplicationError("com.myapp.enc.error1", *args, **kwargs)
+                if plain:
+                    return args[0]
                 return CallResult(*args, **kwargs)
 
             def ep2(*a, **kw):
                 got.setdefault("calls2", []).append((list(a), dict(kw)))
                 return None
             for i, (e, u) in enumerate(((ep, uri), (ep2, uri2))):
-                B.register(e, u)
+                if pattern and i == 0:
+                    B.register(e, "com.myapp.enc.proc", options=RegisterOptions(match="prefix"))
+                else:
+                    B.register(e, u)
                 fw.settle()
                 rx(B, message.Registered(tb.sent[-1][0].request, 200 + i))
                 fw.settle()
@@ -249,9 +270,10 @@ def one(dir_, layout, fault, shape, pos, rng):
                     payload = tamper(payload, pos)
                 if dir_ == "call" and fault == "uriswap":
                     reg = 201
-                inv = message.Invocation(900, reg, payload=payload, enc_algo=cm.enc_algo, enc_key=cm.enc_key, enc_serializer=cm.enc_serializer)
+                inv = message.Invocation(900, reg, payload=payload, enc_algo=cm.enc_algo, enc_key=cm.enc_key, enc_serializer=cm.enc_serializer,
+                                         procedure=(uri if (pattern and reg == 200) else None))
             else:
-                inv = message.Invocation(900, reg, args=cm.args, kwargs=cm.kwargs)
+                inv = message.Invocation(900, reg, args=cm.args, kwargs=cm.kwargs, procedure=(uri if (pattern and reg == 200) else None))
             rx(B, inv)
             fw.settle()
             replies = [m for m, _ in tb.sent if isinstance(m, (message.Yield, message.Error))]
@@ -305,7 +327,7 @@ def one(dir_, layout, fault, shape, pos, rng):
                 e = res["err"]
                 if isinstance(e, ApplicationError) and e.error.startswith("wamp.error.encryption"):
                     obs["call"] = "encerror"
-                elif isinstance(e, ApplicationError) and e.error == "com.myapp.enc.error1":
+                elif (isinstance(e, ApplicationError) and e.error == "com.myapp.enc.error1") or isinstance(e, EncDefinedError):
                     obs["call"] = "apperror"
                     if dir_ == "error":
                         ek = dict(e.kwargs)
